@@ -381,6 +381,10 @@ def gen_cases(tier, seed):
         if rng.random() < 0.3 and size + olds < 40000:
             plan["history"] = [[rng.choice(["STOR", "APPE", "STOR", "APPE", "DELE", "REPLACE"]), rng.choice([0, 0, 3, max(0, olds // 3)]),
                                 rng.choice([0, 5, 300, bs + 1])] for _ in range(rng.randint(1, 3))]
+            if op == "RETR" and plan["history"][-1][0] == "DELE":
+                plan["history"].append(["STOR", 0, 700])     # a download needs the file to be there
+            if plan["history"][-1][0] == "DELE" and offset:
+                plan["history"].append(["APPE", 0, 40])      # so does an upload at a restart offset
         plan["chunks"] = chunks(plan["size"], rng)
         if len(plan["reads"]) and 1 in plan["reads"] and olds + plan["size"] > 5000:
             plan["reads"] = [r if r != 1 else 100 for r in plan["reads"]]
@@ -409,6 +413,22 @@ def gen_cases(tier, seed):
                             "backend_delay": [0, 0.002][j % 2]}
                     plan["chunks"] = chunks(size, rng)
                     plans.append(plan)
+    # sequences on one file: patch in the middle, then append / patch / overwrite; delete or replace in between; an older
+    # session watching
+    j = 0
+    for hist in ([["STOR", 3, 5]], [["APPE", 2, 4]], [["STOR", 3, 5], ["APPE", 0, 7]], [["STOR", 0, 900], ["STOR", 10, 3]],
+                 [["DELE", 0, 0], ["STOR", 0, 50]], [["REPLACE", 0, 333]], [["APPE", 0, 20], ["REPLACE", 0, 5]]):
+        for op, off in (("APPE", 0), ("STOR", 4), ("APPE", 6), ("STOR", 0), ("RETR", 0), ("RETR", 2)):
+            for backend in ("memory", "pathio"):
+                j += 1
+                if tier == "quick" and j % 2 and backend == "pathio":
+                    continue
+                plan = {"seed": seed * 19 + j, "op": op, "size": 11 if op != "RETR" else 0, "old_size": 40, "offset": off, "block_size": 512,
+                        "kind": CONTENT[j % len(CONTENT)], "old_kind": CONTENT[(j + 2) % len(CONTENT)], "backend": backend, "passive": "epsv",
+                        "passive2": "epsv", "mss": [1460, 1460, 1460], "lat": [0.0005], "reads": [512], "throttle": None, "backend_delay": 0,
+                        "history": hist, "observer": j % 3 == 0}
+                plan["chunks"] = [11] if op != "RETR" else []
+                plans.append(plan)
     # client-side limits with the less common call shapes: read() to end of file in one call, one big write()
     j = 0
     for thr in ({"c_read_speed_limit": 1000}, {"c_read_speed_limit": 5000, "s_write_speed_limit": 20000}, {"c_write_speed_limit": 2000},
